@@ -80,19 +80,30 @@ def makeAdder (a b : QRec) : Option QRec :=
 /-- po2 inputs are first converted to their fixed-point carrier -/
 def asQbits (q : QRec) : QRec := if q.isPo2 then po2QbitsConverter q else q
 
-/-- (max bits, max int_bits, any signed, any float, max float bits) over the inputs -/
-def mergeStats (qs : List QRec) : Int × Int × Bool × Bool × Int :=
-  qs.foldl (fun (mb, mi, sg, fl, fb) q =>
-    if q.isFloat then (mb, mi, sg || q.signed, true, imax fb q.bits)
+/-- fractional bits of a fixed-point record -/
+def fracOf (q : QRec) : Int := q.bits - b2i q.signed - q.intBits
+
+def optMax (a : Option Int) (b : Int) : Option Int :=
+  match a with | none => some b | some x => some (imax x b)
+
+/-- `_fixed_point_envelope`: (max int_bits, max frac bits, any signed, any float, max float bits)
+    over the inputs; po2 inputs through their fixed-point carrier -/
+def mergeEnvelope (qs : List QRec) : Option Int × Option Int × Bool × Bool × Int :=
+  qs.foldl (fun (mi, mf, sg, fl, fb) q =>
+    if q.isFloat then (mi, mf, sg || q.signed, true, imax fb q.bits)
     else
       let c := asQbits q
-      (imax mb c.bits, imax mi c.intBits, sg || q.signed, fl, fb))
-    (-1, -1, false, false, 0)
+      (optMax mi c.intBits, optMax mf (fracOf c), sg || q.signed, fl, fb))
+    (none, none, false, false, 0)
 
+/-- Add: `ceil(log2 n)` (at least one) more integer bits than the widest input, finest fraction -/
 def mergeAdd (qs : List QRec) : QRec :=
-  let (mb, mi, sg, fl, fb) := mergeStats qs
+  let (mi, mf, sg, fl, fb) := mergeEnvelope qs
   if fl then tFloat fb
-  else { tQuantizedBits with bits := mb + 1, intBits := mi + 1, signed := sg }
+  else
+    let grow : Int := imax (clog2 (if qs.length = 0 then 1 else qs.length) : Int) 1
+    let i := mi.getD 0 + grow
+    { tQuantizedBits with intBits := i, signed := sg, bits := i + mf.getD 0 + b2i sg }
 
 def sameType (a b : QRec) : Bool :=
   a.name = b.name && a.bits = b.bits && a.intBits = b.intBits && a.signed = b.signed
@@ -104,9 +115,11 @@ def mergeMax (qs : List QRec) : Option QRec :=
   | q0 :: rest =>
     if rest.all (sameType q0) then some q0
     else
-      let (mb, mi, sg, fl, fb) := mergeStats qs
+      let (mi, mf, sg, fl, fb) := mergeEnvelope qs
       if fl then some (tFloat fb)
-      else some { tQuantizedBits with bits := mb, intBits := mi, signed := sg }
+      else
+        let i := mi.getD 0
+        some { tQuantizedBits with intBits := i, signed := sg, bits := i + mf.getD 0 + b2i sg }
 
 /-- Multiply: left fold of the multiplier factory -/
 def mergeMultiply (qs : List QRec) : Option QRec :=
